@@ -925,3 +925,153 @@ def check_c12(pid, tier, build, props):
 
 
 REGISTRY["C12"] = check_c12
+
+
+# --------------------------------------------------------------------------- C02
+def _c02_accept(args):
+    """Worker: restructure every graph of a shard; returns (count, failures)."""
+    import signal
+
+    kind, payload = args
+    common.import_repo()
+
+    class TO(Exception):
+        pass
+
+    def handler(*a):
+        raise TO()
+
+    signal.signal(signal.SIGALRM, handler)
+    if kind == "exh5":
+        graphs = gen_graphs.exhaustive(5, shard=payload[0], nshards=payload[1])
+    else:
+        graphs = payload
+    n = 0
+    fails = []
+    for succ in graphs:
+        n += 1
+        sc = stages.make_scfg(succ)
+        signal.alarm(10)
+        try:
+            sc.restructure()
+        except TO:
+            fails.append({"graph": succ, "site": {"type": "Timeout", "function": "restructure", "stage": "?"}})
+        except Exception as e:
+            fails.append({"graph": succ, "site": stages.exc_site(e)})
+        finally:
+            signal.alarm(0)
+        if len(fails) > 20:
+            break
+    return n, fails
+
+
+def c02_real_cfgs(tier, rng):
+    """Closed CFGs of real functions: generated programs through the source front end and
+    standard-library functions through the bytecode front end (as plain successor tuples)."""
+    import types
+    from numba_scfg.core.datastructures.ast_transforms import AST2SCFGTransformer
+    from numba_scfg.core.datastructures.byte_flow import ByteFlow
+    from . import progs
+
+    out = []
+    skipped = 0
+    for _ in range(300 if tier == "quick" else 4000):
+        src = progs.ProgGen(rng, progs.CLEAN).func(3)
+        try:
+            cfg = AST2SCFGTransformer(src).transform_to_ASTCFG().to_dict()
+        except Exception:
+            skipped += 1
+            continue
+        names = list(cfg)
+        idx = {n: i for i, n in enumerate(names)}
+        try:
+            succ = tuple(tuple(idx[t] for t in cfg[n]["jump_targets"]) for n in names)
+        except KeyError:
+            skipped += 1
+            continue
+        if gen_graphs.closed(succ):
+            out.append(succ)
+        else:
+            skipped += 1
+    import textwrap, heapq, bisect, shlex, fnmatch, posixpath, colorsys, difflib, calendar, string  # noqa: E401
+    for mod in (textwrap, heapq, bisect, shlex, fnmatch, posixpath, colorsys, difflib, calendar, string):
+        for name, f in sorted(vars(mod).items()):
+            if isinstance(f, types.FunctionType) and not f.__code__.co_exceptiontable:
+                try:
+                    g = ByteFlow.from_bytecode(f).scfg.graph
+                except Exception:
+                    skipped += 1
+                    continue
+                names = list(g)
+                idx = {n: i for i, n in enumerate(names)}
+                succ = tuple(tuple(idx[t] for t in g[n]._jump_targets) for n in names)
+                if gen_graphs.closed(succ):
+                    out.append(succ)
+                else:
+                    skipped += 1
+    return out, skipped
+
+
+def check_c02(pid, tier, build, props):
+    import multiprocessing as mp
+
+    t = common.Timer()
+    problems = base_problems(build, props, pid)
+    common.import_repo()
+    rng = random.Random(common.seed())
+    sn = snap.get_snapshot(tier, common.seed())
+    violations = []
+    for e in sn["exceptions"][:10]:
+        violations.append({"graph": e["graph"], "payload": e["payload"],
+                           "witness": {"reason": "restructuring raised on a closed CFG", "site": e["site"]}})
+    if sn["harness_errors"]:
+        problems.append("harness errors: %r" % sn["harness_errors"][:2])
+    real, skipped = c02_real_cfgs(tier, rng)
+    jobs = [("list", real[i::8]) for i in range(8)]
+    if tier == "thorough":
+        nsh = len(gen_graphs.options(5))
+        jobs += [("exh5", (i, nsh)) for i in range(nsh)]
+    ctx = mp.get_context("fork")
+    with ctx.Pool(par_nproc()) as pool:
+        res = pool.map(_c02_accept, jobs)
+    extra = sum(n for n, _ in res)
+    for n, fails in res:
+        for f in fails[:3]:
+            if len(violations) < 12:
+                violations.append({"graph": f["graph"],
+                                   "witness": {"reason": "restructuring raised on a closed CFG", "site": f["site"]}})
+    total = sn["graphs"] + extra
+    nth = len(props["theorems"])
+    coverage = {
+        "evaluations": total,
+        "distinct_nontrivial": total - sn["distribution"]["n"].get("1", 0),
+        "rule": "closed CFGs with at most two distinct successors per block: ALL with <=4 blocks (3879)%s, shapes, "
+                "random ones up to 40 blocks, the closed CFGs of generated source programs (front end) and of "
+                "standard-library functions (bytecode front end); restructure() must return within 10 s without "
+                "raising; non-trivial = more than one block; distinct by construction of the enumeration"
+                % (" and ALL with 5 blocks (443 400)" if tier == "thorough" else ""),
+        "exhaustive": True,
+        "samples": [{"graph": real[0] if real else None, "from": "real function"}] + sn["samples"][:2],
+        "by_source": dict(sn["by_source"], real_functions=len(real), real_function_cfgs_not_closed_or_unbuildable=skipped,
+                          exhaustive5=extra - len(real)),
+        "exceptions": len(sn["exceptions"]) + sum(len(f) for _, f in res),
+        "component_theorems": props["theorems"],
+        "obligations_total": nth, "discharged_total": nth if props["ok"] else 0,
+        "explanation": "The universal statement (forall closed g, restructure g terminates without raising) is NOT "
+                       "proved: it needs a total-correctness proof of the whole pipeline. Decided by running the "
+                       "implementation on the enumerated space (exhaustive up to the stated bound). Proved in Coq "
+                       "(Props/C02.v): totality of the value-table rewrite with equal arity (the site repaired by "
+                       "cecde5d), find_head succeeds whenever a unique un-targeted block exists, the breadth-first "
+                       "iterators terminate on every graph.",
+    }
+    return {"coverage": coverage, "violations": violations, "problems": problems, "level": "exploration",
+            "wall_s": t.s(), "broken_name": "Props/C02.v (component totality) / acceptance run"}
+
+
+def par_nproc():
+    import os
+
+    return min(16, os.cpu_count() or 4)
+
+
+REGISTRY["C02"] = check_c02
